@@ -235,7 +235,7 @@ func runStart(ctx context.Context, in Input, mc *kem.MonitorConfig) Obs {
 	} else {
 		watches.Add(1)
 	}
-	dyn := fc.Client.Dynamic().Resource(objGVR).Namespace(objNamespace)
+	dyn := fc.Client.Dynamic().Resource(gvrOf(in)).Namespace(objNamespace)
 
 	canonState := make([]string, len(in.States))
 	ridToId := map[string]int{}
@@ -286,7 +286,7 @@ func runStart(ctx context.Context, in Input, mc *kem.MonitorConfig) Obs {
 		wc.Metadata.MetricLabels = map[string]string{}
 		wc.Logger = log.NewNop()
 		wc.ApiVersion = "v1"
-		wc.Kind = objKind
+		wc.Kind = kindOf(in)
 		wc.WithEventTypes(nil)
 		other, err := kem.NewVerifC01Monitor(ctx, fc.Client, metricstorage.NewMetricStorage(ctx, "c08o_", true, log.NewNop()), wc)
 		if err != nil {
